@@ -1343,20 +1343,18 @@ V("C15-D16-reintroduced", "C15", "D16 re-introduced: DictProxy entry paths from 
         return "%s[%s]" % (self.dict_field._ref_path, key)""",
   """        return "%s[%s]" % (self.dict_field._ref_path, key)""", expect_rule="path.proxy-uses-owner-path")
 V("C03-D18-reintroduced", "C03", "D18 re-introduced: loading replaces a sub-configuration and forgets its own key file", CORE,
-  """            previous = self._data.get(key)
-            if isinstance(previous, Config) and previous.__keyfile and not cfg.__keyfile:
-                # the sub-configuration being replaced named its own key file: its secrets were
-                # encrypted with that key, so the new sub-configuration keeps using it
-                cfg.__keyfile = previous.__keyfile
+  """        if previous.__keyfile and not self.__keyfile:
+            self.__keyfile = previous.__keyfile
+
 """, "", expect_rule="keyfile.survives-replacement")
 V("C03-D18-after-load", "C03", "key file taken over only after the nested map was decrypted", CORE,
-  """                cfg.__keyfile = previous.__keyfile
+  """                cfg._adopt_keyfiles(previous)
             cfg.load_tree(value)  # load_tree will raise a ValidationError on error
             value = cfg""",
   """                pass
             cfg.load_tree(value)  # load_tree will raise a ValidationError on error
-            if isinstance(previous, Config) and previous.__keyfile:
-                cfg.__keyfile = previous.__keyfile
+            if isinstance(previous, Config):
+                cfg._adopt_keyfiles(previous)
             value = cfg""", expect_rule="keyfile.survives-replacement")
 VP("C14-R3D-mut-empty-counts", "C14", "shared _env_lookup helper: an empty variable counts as set", "C14-R3D", CORE,
    "        return os.environ.get(name) or None", "        return os.environ.get(name)")
@@ -1571,3 +1569,12 @@ V("C01-foreign-config-or-form-ok", "C01", "refactoring: the schema test written 
   "            if expected is not None and value._schema is not expected:\n                # a configuration created from another schema holds values this field's schema\n                # never validated\n                raise ValidationError(\n                    self, field, \"configuration was created from a different schema\"\n                )\n            value._parent = self\n            value._key = key\n",
   "            if not (expected is None or value._schema is expected):\n                raise ValidationError(\n                    self, field, \"configuration was created from a different schema\"\n                )\n            value._parent = self\n            value._key = key\n",
   expect="silent")
+
+# D34: key files named further down survive the replacement of a sub-configuration
+V("C03-deep-keyfile-lost-again", "C03", "D34 re-opened: the take-over no longer visits the nested configurations", CORE,
+  "        for key, old in previous._data.items():\n            new = self._data.get(key)\n            if isinstance(old, Config) and isinstance(new, Config):\n                new._adopt_keyfiles(old)\n", "")
+V("C03-keyfile-takeover-dropped", "C03", "the replaced sub-configuration's key file is not taken over at all", CORE,
+  "            if isinstance(previous, Config):\n                # the sub-configuration being replaced (or one below it) named its own key file:\n                # its secrets were encrypted with that key, so the new one keeps using it\n                cfg._adopt_keyfiles(previous)\n", "")
+V("C03-keyfile-takeover-after-load", "C03", "the key files are taken over after the nested map was loaded (and decrypted)", CORE,
+  "                cfg._adopt_keyfiles(previous)\n            cfg.load_tree(value)  # load_tree will raise a ValidationError on error\n",
+  "                pass\n            cfg.load_tree(value)  # load_tree will raise a ValidationError on error\n            if isinstance(previous, Config):\n                cfg._adopt_keyfiles(previous)\n")
